@@ -211,3 +211,7 @@ func TestC15(t *testing.T) {
 }
 
 var _ = fmt.Sprint
+
+func FuzzC15(f *testing.F) {
+	stats.Fuzz(f, stats.Prop[C15Case]{ID: "C15", Rule: ruleC15, Gen: genC15, Check: checkC15})
+}
